@@ -135,7 +135,7 @@ fn plans(base: &crate::exec::RunStats, seed: u64, idx: u64, thorough: bool) -> V
 pub fn check(tier: &str, seed: u64) -> i32 {
     let thorough = tier == "thorough";
     let scale: f64 = std::env::var("VERIF_SCALE").ok().and_then(|s| s.parse().ok()).unwrap_or(1.0);
-    let nscripts = (((if thorough { 300 } else { 8 }) as f64) * scale).max(1.0) as u64;
+    let nscripts = (((if thorough { 200 } else { 8 }) as f64) * scale).max(1.0) as u64;
     let t0 = Instant::now();
     let known = load_known();
     let tally = Mutex::new(Tally {
@@ -147,14 +147,20 @@ pub fn check(tier: &str, seed: u64) -> i32 {
         scripts: 0,
         sample: Vec::new(),
     });
+    // scripts are handled in groups, so that the plan list stays small
+    const GROUP: u64 = 8;
+    let mut plan_offset = 0u64;
+    for group_start in (0..nscripts).step_by(GROUP as usize) {
+    let group_end = (group_start + GROUP).min(nscripts);
     // phase 1: fault-free runs of every script, and their fault plans
-    let next = AtomicU64::new(0);
-    let work: Mutex<Vec<(u64, Trace, Vec<FaultSpec>, Option<u64>)>> = Mutex::new(Vec::new());
+    let next = AtomicU64::new(group_start);
+    let work: Mutex<Vec<(u64, Vec<FaultSpec>, Option<u64>)>> = Mutex::new(Vec::new());
+    let bases: Mutex<BTreeMap<u64, Trace>> = Mutex::new(BTreeMap::new());
     std::thread::scope(|s| {
         for _ in 0..threads() {
             s.spawn(|| loop {
                 let idx = next.fetch_add(1, Ordering::Relaxed);
-                if idx >= nscripts {
+                if idx >= group_end {
                     break;
                 }
                 let attempt = std::panic::catch_unwind(std::panic::AssertUnwindSafe(|| {
@@ -179,9 +185,10 @@ pub fn check(tier: &str, seed: u64) -> i32 {
                             }
                             t.found.extend(bad);
                         }
+                        bases.lock().unwrap().insert(idx, bt);
                         let mut w = work.lock().unwrap();
                         for (f, c) in pl {
-                            w.push((idx, bt.clone(), f, c));
+                            w.push((idx, f, c));
                         }
                     }
                     Err(_) => {
@@ -193,8 +200,10 @@ pub fn check(tier: &str, seed: u64) -> i32 {
         }
     });
     let mut work = work.into_inner().unwrap();
-    work.sort_by(|a, b| (a.0, &a.2.len(), a.2.first().map(|f| (f.op_id, f.kind.idx(), f.nth, f.persistent)), a.3)
-        .cmp(&(b.0, &b.2.len(), b.2.first().map(|f| (f.op_id, f.kind.idx(), f.nth, f.persistent)), b.3)));
+    let bases = bases.into_inner().unwrap();
+    let bases = &bases;
+    work.sort_by(|a, b| (a.0, &a.1.len(), a.1.first().map(|f| (f.op_id, f.kind.idx(), f.nth, f.persistent)), a.2)
+        .cmp(&(b.0, &b.1.len(), b.1.first().map(|f| (f.op_id, f.kind.idx(), f.nth, f.persistent)), b.2)));
     // phase 2: one run per fault plan
     let next = AtomicU64::new(0);
     let work = &work;
@@ -209,7 +218,8 @@ pub fn check(tier: &str, seed: u64) -> i32 {
                     if i >= work.len() {
                         break;
                     }
-                    let (_, bt, faults, cap) = &work[i];
+                    let (sidx, faults, cap) = &work[i];
+                    let bt = &bases[sidx];
                     let attempt = std::panic::catch_unwind(std::panic::AssertUnwindSafe(|| {
                         let mut t = bt.clone();
                         t.faults = faults.clone();
@@ -235,7 +245,7 @@ pub fn check(tier: &str, seed: u64) -> i32 {
                     if r.stats.probes.contains_key("fault_reported_as_error") {
                         reported += 1;
                     }
-                    local_absorb(&mut local, &t, &r.stats, i as u64);
+                    local_absorb(&mut local, &t, &r.stats, plan_offset + i as u64);
                     if let Some(v) = r.violations.iter().find(|v| v.property() == "C15") {
                         if found.len() < 8 {
                             found.push(Found { trace: t.clone(), violation: v.clone() });
@@ -255,6 +265,8 @@ pub fn check(tier: &str, seed: u64) -> i32 {
             });
         }
     });
+    plan_offset += work.len() as u64;
+    }
     let mut t = tally.into_inner().unwrap();
     t.found.sort_by_key(|f| (f.trace.run, f.trace.faults.first().map(|x| (x.op_id, x.nth)).unwrap_or((0, 0))));
     let mut violations = 0usize;
